@@ -43,8 +43,10 @@ def guard_of(o, c, E):
 
 
 class LoopSpec:
-    def __init__(self, inv, decreases=None, havoc=None, kinds=None, on_exit=None):
+    def __init__(self, inv, decreases=None, havoc=None, kinds=None, on_exit=None, frozen=()):
         self.on_exit = on_exit      # fn(c, fr): called when the loop is left (break / condition)
+        self.frozen = tuple(frozen)  # locals assigned only on paths that leave the loop: not
+                                     # havocked; 'unchanged at the end of an iteration' is an obligation
         self.inv = inv              # fn(c, fr) -> [(label, Bool)]
         self.decreases = decreases  # fn(c, fr) -> Int term
         self.havoc = havoc          # fn(c, fr): havoc heap locations the body may modify
